@@ -2,7 +2,7 @@
 
 
 def bag_cfg(maxbits, maxrefs, maxdepth, maxobjs, maxsteps):
-    return ('SPECIFICATION Spec\nCONSTANTS MaxBits = %d\n MaxRefs = %d\n MaxDepth = %d\n MaxObjs = %d\n MaxSteps = %d\n'
+    return ('SPECIFICATION Spec\nCONSTANTS MaxBits = %d\n MaxRefs = %d\n MaxDepth = %d\n MaxObjs = %d\n MaxSteps = %d\n Record = FALSE\n'
             'INVARIANT Capacity\nINVARIANT RoundTrip\nPROPERTY CellsImmutable\nPROPERTY FrameOne\nCHECK_DEADLOCK FALSE\n'
             % (maxbits, maxrefs, maxdepth, maxobjs, maxsteps))
 
@@ -12,3 +12,12 @@ def bag_checks(tier):
         return [dict(name='bag_m', module='MC_Bag.tla', workers=8, timeout=900, heap='8g', cfg=bag_cfg(12, 2, 2, 4, 4))]
     return [dict(name='bag_m', module='MC_Bag.tla', workers=16, timeout=2400, heap='24g', cfg=bag_cfg(12, 2, 2, 4, 5)),
             dict(name='bag_m_tight', module='MC_Bag.tla', workers=8, timeout=2400, heap='8g', cfg=bag_cfg(5, 1, 1, 5, 6))]
+
+
+def bag_sim(tier, seed):
+    """G: random behaviours of the FULL-SIZE machine (the library's limits) exported by TLC's simulation mode for replay"""
+    n, steps = (40, 24) if tier == 'quick' else (400, 40)
+    cfg = ('SPECIFICATION Spec\nCONSTANTS MaxBits = 1023\n MaxRefs = 4\n MaxDepth = 1023\n MaxObjs = 9\n MaxSteps = %d\n Record = TRUE\n'
+           'INVARIANT ExportBehaviour\nINVARIANT Capacity\nCHECK_DEADLOCK FALSE\n' % steps)
+    return dict(name='bag_sim', module='MC_Bag.tla', gen=True, workers=1, timeout=1500, heap='4g', cfg=cfg,
+                simulate='num=%d' % n, extra=['-depth', str(steps + 2), '-seed', str(seed + 1)])
